@@ -24,16 +24,27 @@ def check_trig_recombination(r, repo, rule="R17.3"):
     from sa.absint import Interp, Closure, Unsupported as IUnsupported, PyRaise
     from rules.C12 import Poly
 
+    class Cond:
+        __absint_host__ = True
+
+        def __init__(self, op, a, b):
+            self.op, self.a, self.b = op, a, b
+
+        def __repr__(self):
+            return f"{self.a!r} {self.op} {self.b!r}"
+
     class RV(Poly):
         __absint_host__ = True
 
         def __abs__(self):
             return RV({("|" + repr(self) + "|",): 1})
 
-        def _c(self, o):
-            return "COND"
+        def _mk(op):
+            def f(self, o):
+                return Cond(op, self, o)
+            return f
 
-        __lt__ = __le__ = __gt__ = __ge__ = _c
+        __lt__, __le__, __gt__, __ge__ = _mk("<"), _mk("<="), _mk(">"), _mk(">=")
 
         def __hash__(self):
             return id(self)
@@ -52,8 +63,10 @@ def check_trig_recombination(r, repo, rule="R17.3"):
 
         def select(self, c, a, b):
             # the reduction proper is the arm taken when |x| is not small; the other arm returns x itself
+            selects.append((c, a, b))
             return b
 
+    selects = []
     g = repo.func(REL, "argument_reduction_trigonometric_impl")
     params = [a.arg for a in g.args.args]
     if len(params) != 3:
@@ -93,6 +106,44 @@ def check_trig_recombination(r, repo, rule="R17.3"):
     except TypeError as e:
         ok, detail = False, str(e)
     r.ob(rule, f"{REL}::argument_reduction_trigonometric_impl remainder r + t == (y + t) * pi/2 (exact-arithmetic identity)", ok, detail, loc(REL, g))
+    # R17.4: the shortcut that returns x itself (k is still the genuine quadrant) is sound only for |x| below the first octant
+    # boundary, on both sides of zero: its guard must be a test of |x| against (head word of pi/2) / 2
+    from fractions import Fraction
+    X = RV({("x",): 1})
+    absx = abs(X)
+    shortcuts = [(c, a, b) for c, a, b in selects if isinstance(a, Poly) and (Poly.__eq__(a, X) or not a.t)]
+    if len(shortcuts) < 2:
+        raise AnalysisError("argument_reduction_trigonometric_impl: the small-argument selections of r and t were not found")
+    absatom = next(iter(absx.t))[0]
+
+    def ratio(pl, atom):
+        """pl == q * atom -> q, else None"""
+        if isinstance(pl, Poly) and list(pl.t) == [(atom,)]:
+            return pl.t[(atom,)]
+        return None
+
+    for c, a, b in shortcuts:
+        which = "r = x" if a.t else "t = 0"
+        key = f"{REL}::argument_reduction_trigonometric_impl shortcut `{which}` guarded by |x| <= (pi/2 head word) / 2"
+        if not isinstance(c, Cond):
+            raise AnalysisError(f"argument_reduction_trigonometric_impl: the guard of `{which}` is not a comparison ({c!r})")
+        op, lhs, rhs = c.op, c.a, c.b
+        if op in (">", ">="):
+            op, lhs, rhs = {">": "<", ">=": "<="}[op], rhs, lhs
+        atoms = {a_ for side in (lhs, rhs) if isinstance(side, Poly) for mon in side.t for a_ in mon}
+        if "x" in atoms and absatom not in atoms:
+            r.ob("R17.4", key, False,
+                 f"the shortcut `{which}` is taken when `{lhs!r} {op} {rhs!r}`, a test of x itself, not of |x|: every negative argument takes the "
+                 "shortcut and gets r = x together with the quadrant k of the genuine reduction", loc(REL, g))
+            continue
+        qa, qb = ratio(lhs, absatom), ratio(rhs, "P_hi")
+        if qa is None or qb is None or qa <= 0:
+            raise AnalysisError(f"argument_reduction_trigonometric_impl: guard `{lhs!r} {op} {rhs!r}` of `{which}` is not of the form a*|x| < b*P_hi")
+        cfac = Fraction(qb) / Fraction(qa)
+        ok4 = 0 < cfac <= Fraction(1, 2)
+        r.ob("R17.4", key, ok4,
+             f"the shortcut `{which}` is taken for |x| < {cfac} * P_hi: beyond P_hi / 2 the genuine reduction has k != 0, so r = x is returned with "
+             "a quadrant it does not belong to", loc(REL, g))
 
 
 def run(repo, tier):
@@ -107,6 +158,7 @@ def run(repo, tier):
     r.trusted_base = ["Python ast", "ln 2 and 1/ln 2 to 100 digits", "struct rounding of literals to binary16/32"]
     r.rule("R17.1", "double-word ln2: |hi+lo-ln2| <= ulp(lo)/2 and hi leaves enough trailing zero bits for exact k*hi", floor=9)
     r.rule("R17.3", "trigonometric reduction: the returned double-word remainder equals (y + t) * (pi/2 double-word) as an exact-arithmetic polynomial identity (2Sum summarised by its contract)", floor=2)
+    r.rule("R17.4", "trigonometric reduction: the no-reduction shortcut (r = x, t = 0) is guarded by |x| < (head word of pi/2) / 2, symmetric in the sign of x", floor=2)
     r.rule("R17.2", "reduction formula: k = floor(x*ln2inv + 1/2), r = x - k*ln2hi, c = -k*ln2lo; scalar constants correctly rounded", floor=5)
 
     from sa.kernels import Extractor, IN, CONST, normal as knf, show, lift, is_term, Unsupported as KUnsupported
